@@ -378,7 +378,7 @@ type SeqOptions struct {
 	Dir     string
 	Workers int
 	Seed    int64
-	Max     int // number of stores to run (0 = all), chosen by seed
+	Max     int   // number of stores to run (0 = all), chosen by seed
 	Only    []int // run exactly these stores (replay / reproduction)
 }
 
